@@ -345,6 +345,7 @@ func tamperEnumerate(c *core.Case) {
 	ms := manipsFor(cv.frames(), nil)
 	for _, m := range ms {
 		tamperSession(c, cv, m, cv.Name == "identical-plaintexts")
+		c.Run.Count("tamper_enumeration_runs", 1)
 	}
 	c.Run.Count("tamper_conversations", 1)
 	c.Run.Count("tamper_enumerated_positions", cv.frames()+1)
